@@ -241,6 +241,7 @@ int driverMain(int argc, char** argv, std::function<Engine*(const std::string&)>
     if (const char* s = getenv("VERIF_SEED")) if (*s) cfg.seed = strtoull(s, 0, 10);
     if (const char* s = getenv("VERIF_TIER")) if (*s) cfg.tier = s;
     bool tierGiven = false;
+    long long dumpPlan = -1;      // --dump-plan <index>: print the plan the generator makes for (seed, index, tier) and stop
     for (int i = 1; i < argc; i++) {
         std::string a = argv[i]; auto nxt = [&]() -> std::string { if (i + 1 >= argc) { fprintf(stderr, "missing value for %s\n", a.c_str()); exit(2); } return argv[++i]; };
         if (a == "--prop") cfg.prop = nxt(); else if (a == "--tier") { cfg.tier = nxt(); tierGiven = true; } else if (a == "--seed") cfg.seed = strtoull(nxt().c_str(), 0, 10);
@@ -249,6 +250,7 @@ int driverMain(int argc, char** argv, std::function<Engine*(const std::string&)>
         else if (a == "--evidence") cfg.evidence = nxt(); else if (a == "--hashes") cfg.hashes = nxt(); else if (a == "--known") cfg.known = nxt();
         else if (a == "--det-every") cfg.detEvery = atoi(nxt().c_str()); else if (a == "--no-shrink") cfg.noShrink = true; else if (a == "--trace") cfg.trace = true;
         else if (a == "--worker-index") cfg.workerIndex = atoi(nxt().c_str());
+        else if (a == "--dump-plan") dumpPlan = (long long)strtoull(nxt().c_str(), 0, 10);
         else if (a == "--start") cfg.start = strtoull(nxt().c_str(), 0, 10); else if (a == "--hang-seconds") cfg.hangSeconds = atof(nxt().c_str());
         else { fprintf(stderr, "unknown argument %s\n", a.c_str()); return 2; }
     }
@@ -263,6 +265,7 @@ int driverMain(int argc, char** argv, std::function<Engine*(const std::string&)>
     g_run.trace = cfg.trace;
 
     g_prop = cfg.prop; g_knownPath = cfg.known; g_workDir = cfg.workDir;
+    if (dumpPlan >= 0) { puts(eng->generate(cfg.seed, (uint64_t)dumpPlan, cfg.tier).dump().c_str()); return 0; }
     // ---- internal: execute one plan file the way a worker does (fresh image -> globalInit -> fork -> execute)
     if (!cfg.execPlan.empty()) {
         std::string txt; if (!readFile(cfg.execPlan, txt)) return 2; Json plan = Json::parse(txt); unlink(cfg.execPlan.c_str());
